@@ -20,7 +20,7 @@ From Coq Require Import String List NArith ZArith Bool Arith Lia.
 From Tealer Require Import Tables LeafPrelude Leaves Syntax Parse Cfg StackAst Keys Analysis Domains Detect.
 From Tealer Require Import Runs Paths InsExec Eval Exec InsSem.
 From Tealer Require Import StackLemmas LeafLemmas SingleLemmas CfgLemmas SubLemmas GraphWf GraphOk WalkLemmas RunLemmas.
-From Tealer Require Import PathCut Compose ExecLemmas NoMiss.
+From Tealer Require Import PathCut Compose ExecLemmas NoMiss SolverLemmas EdgeRepair.
 Import ListNotations.
 Open Scope list_scope.
 
@@ -273,9 +273,12 @@ Section Refine.
   Proof.
     intros Hok Hb E Hop Hctl.
     assert (Hpcin : In pc (b_ins b)) by (rewrite E; apply in_or_app; right; left; reflexivity).
-    destruct (blk_of pc st b Hok Hb Hpcin) as (_ & Epc & Hid & Hin & _).
+    destruct (blk_of pc st b Hok Hb Hpcin) as (Hfb & Epc & Hid & Hin & _).
     assert (Hop' : op_at p pc = Some (IBZ l) \/ op_at p pc = Some (IBNZ l))
       by (destruct isbz; [left | right]; exact Hop).
+    assert (Hinb : In b (fn_blocks f)) by (eapply fblock_In; exact Hfb).
+    assert (Hopf : fexit_op f b = Some (IBZ l) \/ fexit_op f b = Some (IBNZ l))
+      by (rewrite (fexit_last b X pc E); exact Hop').
     destruct (branch_label b X pc l Hb E Hop') as (k & Hk).
     (* which way the step went *)
     assert (Hway : (pc' = k /\ (if isbz then negb (truthy c) else truthy c) = true) \/
@@ -287,19 +290,26 @@ Section Refine.
       - destruct (ctl_bnz_inv p l c pc st pc' st Hctl) as [_ [[Ht Hl]|(Ht & -> & Hlt)]].
         + left. apply label_at_find_label in Hl. split; [congruence | exact Ht].
         + right. split; [reflexivity|]. split; [assumption | exact Ht]. }
-    unfold jump_ok. destruct (Nat.lt_ge_cases (S pc) (length p)) as [Hlt|Hge].
+    (* Spec/Exec.jump_ok decides "the branch targets the next line" on the jump target; on a parsed contract
+       this is the same as "the branch is not the last instruction" (EdgeRepair.jump_ok_old_new_agree) *)
+    destruct (Nat.lt_ge_cases (S pc) (length p)) as [Hlt|Hge].
     - destruct Hok as [_ Hst]. cbn [snd] in Hst.
       destruct (cond_order_sec p t bs rbs Hparse Hbs Hc pc st l k (b_idx b) Hin Hid Hst Hop' Hk Hlt)
         as (b2 & Hb2 & Ei2 & _ & Hnx2).
       assert (Eb : b2 = b).
       { apply (in_t_blocks p t b2 Hparse) in Hb2. apply (in_t_blocks p t b Hparse) in Hb.
         rewrite Ei2, Epc in Hb2. congruence. }
-      subst b2. rewrite Hnx2.
+      subst b2.
+      apply (jump_ok_old_new_agree p t Hparse b l _ _ Hinb Hopf).
+      { rewrite Hnx2. destruct (Nat.eqb (pc_block t k) (pc_block t (S pc))); discriminate. }
+      unfold jump_ok_old. rewrite Hnx2.
       destruct (Nat.eqb (pc_block t k) (pc_block t (S pc))) eqn:Eq.
       + intros Hl. unfold exit_is_last in Hl. rewrite rf_prog, E, last_last in Hl.
         apply Nat.leb_le in Hl. lia.
       + destruct Hway as [[-> ->]|(-> & _ & ->)]; reflexivity.
-    - destruct (last_branch_next b X pc l Hb E Hop' Hge) as (m & ->).
+    - destruct (last_branch_next b X pc l Hb E Hop' Hge) as (m & Em).
+      apply (jump_ok_old_new_agree p t Hparse b l _ _ Hinb Hopf); [rewrite Em; discriminate|].
+      unfold jump_ok_old. rewrite Em.
       intros _. destruct Hway as [[_ H]|(_ & Hlt & _)]; [exact H | lia].
   Qed.
 
@@ -683,9 +693,12 @@ Section Converse.
   Proof.
     intros Hok Hb E Hop Hi Hhead Hj.
     assert (Hpcin : In pc (b_ins b)) by (rewrite E; apply in_or_app; right; left; reflexivity).
-    destruct (blk_of p t bs rbs Hparse Hbs Hc pc [] b Hok Hb Hpcin) as (_ & Epc & Hid & Hin & _).
+    destruct (blk_of p t bs rbs Hparse Hbs Hc pc [] b Hok Hb Hpcin) as (Hfb & Epc & Hid & Hin & _).
     assert (Hop' : op_at p pc = Some (IBZ l) \/ op_at p pc = Some (IBNZ l))
       by (destruct isbz; [left | right]; exact Hop).
+    assert (Hinb : In b (fn_blocks f)) by (eapply fblock_In; exact Hfb).
+    assert (Hopf : fexit_op f b = Some (IBZ l) \/ fexit_op f b = Some (IBNZ l))
+      by (rewrite (fexit_last p t Hparse b X pc E); exact Hop').
     destruct (branch_label p t bs rbs Hparse Hbs Hc b X pc l Hb E Hop') as (k & Hk).
     assert (Hlab : label_at p l k) by (apply label_at_find_label; exact Hk).
     assert (Hjl : exists i, op_at p pc = Some i /\ In l (jump_labels i) /\ falls_through i = true).
@@ -754,7 +767,8 @@ Section Converse.
         * apply Nat.eqb_eq in Eq. rewrite Eq, HhS in Hhead. symmetry. exact Hhead.
         * rewrite Hj, HhS in Hhead. symmetry. exact Hhead.
       + exfalso. destruct (last_branch_next p t bs rbs Hparse Hbs Hc b X pc l Hb E Hop' Hge) as (m & Em).
-        unfold jump_ok in Hj. rewrite Em in Hj.
+        apply (jump_ok_old_new_agree p t Hparse b l _ _ Hinb Hopf ltac:(rewrite Em; discriminate)) in Hj.
+        unfold jump_ok_old in Hj. rewrite Em in Hj.
         assert (Hl : exit_is_last f b = true).
         { unfold exit_is_last. rewrite (whole_prog p t Hparse), E, last_last. apply Nat.leb_le. exact Hge. }
         rewrite (Hj Hl) in HJ. discriminate HJ.
